@@ -384,3 +384,37 @@ MUTANTS += [
             _advance(parser, BINSON_ADVANCE_LEAVE_OBJECT)) {''')],
      'expect': {'C11': 'SPAN-EXACT', 'C06': 'get_raw'}},
 ]
+
+# ---- C07: lookups on the extracted machine ----------------------------------------------------------------------------
+MUTANTS += [
+    {'name': 'c07_lookup_overshoot_not_rewound_flags', 'edits': [(P, '''                            parser->buffer_used -= bytes_consumed;
+                            state->flags = BINSON_STATE_IN_OBJ_EXPECTING_FIELD;
+                            return false;''', '''                            parser->buffer_used -= bytes_consumed;
+                            return false;''')],
+     'expect': {'C07': 'expecting a field'}},
+    {'name': 'c07_lookup_found_on_greater_or_equal', 'edits': [(P, '''        r = _cmp_name(&scan_name, &parser->current_state->current_name);
+        if (0 == r) {
+            return true;
+        }''', '''        r = _cmp_name(&scan_name, &parser->current_state->current_name);
+        if (0 >= r) {
+            return true;
+        }''')],
+     'expect': {'C07': None}},   # equivalent: after a successful step the recorded name is never greater than the wanted one
+    {'name': 'c07_lookup_overshoot_on_equal', 'edits': [(P, '''                        int r = _cmp_name(&consumed, scan_name);
+                        if (r > 0) {''', '''                        int r = _cmp_name(&consumed, scan_name);
+                        if (r >= 0) {''')],
+     'expect': {'C07': 'LOOKUP'}},
+    {'name': 'c07_lookup_stops_only_at_depth_one', 'edits': [(P, '''                    if ((NULL != scan_name)) {
+                        int r = _cmp_name(&consumed, scan_name);''', '''                    if ((NULL != scan_name) && parser->depth < 3) {
+                        int r = _cmp_name(&consumed, scan_name);''')],
+     'expect': {'C07': 'LOOKUP'}},
+    # silent: the redundant early exit of the lookup loop removed (the token loop has already rewound on an overshoot)
+    {'name': 'silent_c07_lookup_loop_without_break', 'edits': [(P, '''        else if (r < 0) {
+            /* Necessary? */
+            break;
+        }''', '''        else if (r < 0) {
+            /* cannot happen: the token loop rewinds and returns false on an overshoot */
+            return false;
+        }''')],
+     'expect': {'C07': None}},
+]
